@@ -7,6 +7,7 @@
 #include <cmath>
 #include <cstdlib>
 #include <limits>
+#include <sstream>
 #include <random>
 #include <vector>
 
@@ -43,8 +44,20 @@ static coord tagc(char const* t)
 
 struct binning { int bx, by; long long xmin, sx, ymin, sy; }; // scaled by K; by == 0 means one-dimensional
 
+template <typename T> static hep::distribution_parameters<T> make_params_direct(binning const& b, int e, std::string const& name);
+static bool params_via_text = false; // the parameters an integrand is built with are read back from their text form first
 template <typename T>
 static hep::distribution_parameters<T> make_params(binning const& b, int e, std::string const& name)
+{
+    hep::distribution_parameters<T> p = make_params_direct<T>(b, e, name);
+    if (!params_via_text) return p;
+    std::ostringstream o;
+    p.serialize(o);
+    std::istringstream in(o.str());
+    return hep::distribution_parameters<T>(in);
+}
+template <typename T>
+static hep::distribution_parameters<T> make_params_direct(binning const& b, int e, std::string const& name)
 {
     auto sc = [e](long long k) { return (T) std::ldexp((long double) k / K, e); };
     if (b.by == 0) return hep::distribution_parameters<T>((std::size_t) b.bx, sc(b.xmin), sc(b.xmin + b.bx * b.sx), name);
@@ -135,6 +148,7 @@ static void fill1_family(vt::rng& g, bool thorough)
                     if (!thorough && g.below(3) != 0) continue;
                     binning b{bx, by, mins[mi], sizes[si], mins[(mi + 1) % 3], sizes[(si + 1) % 3]};
                     int e = exps[g.below(3)];
+                    params_via_text = g.below(2) == 0;
                     std::vector<coord> xs;
                     for (long long k = -8; k <= 4 * bx + 8; ++k) xs.push_back(fin(b.xmin + k * b.sx / 4));
                     xs.push_back(tagc("nan")); xs.push_back(tagc("+inf")); xs.push_back(tagc("-inf"));
@@ -165,6 +179,7 @@ static void fill1_family(vt::rng& g, bool thorough)
                     for (T v : hep::mid_points_x(dr)) { exact = exact && vt::is_exact_scaled(v, 5); mx.push_back(exact ? vt::exact_scaled(v, 5) : 0); }
                     for (T v : hep::mid_points_y(dr)) { exact = exact && vt::is_exact_scaled(v, 5); my.push_back(exact ? vt::exact_scaled(v, 5) : 0); }
                     vt::ev("Mid").s("T", vt::type_name<T>::get()).a("p", plist(b)).a("mx", mx).a("my", my).i("exact", exact ? 1 : 0).emit();
+                    params_via_text = false;
                 }
 }
 
@@ -209,6 +224,7 @@ static void multi_run(int run, int kind, vt::rng& g)
     std::vector<long long> dl;
     for (auto const& b : ds) { auto p = plist(b); dl.insert(dl.end(), p.begin(), p.end()); }
     vt::ev("Begin").i("run", run).i("kind", kind).s("T", vt::type_name<T>::get()).i("N", (long long) N).a("dists", dl).emit();
+    params_via_text = run % 2 == 1;
     std::size_t call = 0;
     auto body = [&](T weight, hep::projector<T>& pr) {
         for (auto const& fs : plan[call])
@@ -272,6 +288,7 @@ static void multi_run(int run, int kind, vt::rng& g)
                 .i("sum", vt::exact_scaled(s, 0)).i("sumsq", vt::exact_scaled(q, 0)).i("nbins", (long long) out[d].results().size()).emit();
         }
     }
+    params_via_text = false;
     vt::ev("End").i("run", run).i("ndists", (long long) out.size()).emit();
 }
 
